@@ -6,6 +6,7 @@ import (
 	"encoding/json"
 	"flag"
 	"fmt"
+	"go/ast"
 	"os"
 	"path/filepath"
 	"runtime/debug"
@@ -34,6 +35,7 @@ func main() {
 	replay := flag.String("replay", "", "re-evaluate the obligation recorded in this replay file")
 	selftest := flag.Bool("selftest", false, "run the sensitivity corpus for -p (thorough tier does this itself)")
 	list := flag.Bool("list", false, "list properties and rules")
+	inv := flag.Bool("inventory", false, "print the function inventory of -repo (the frozen copy is checker/inventory.txt)")
 	flag.Parse()
 
 	if *verif == "" {
@@ -59,6 +61,29 @@ func main() {
 		sort.Strings(ids)
 		for _, id := range ids {
 			fmt.Printf("%s: %d rule groups\n", id, len(properties[id].Rules))
+		}
+		return
+	}
+	if *inv {
+		c, err := load(loadOpts{Dir: *repo, NoNormalise: true})
+		if err != nil {
+			fmt.Printf("BROKEN: %v\n", err)
+			os.Exit(2)
+		}
+		var lines []string
+		for _, p := range c.Pkgs {
+			for _, f := range p.Syntax {
+				for _, d := range f.Decls {
+					if fd, ok := d.(*ast.FuncDecl); ok {
+						lines = append(lines, inventoryKey(p.PkgPath, fd))
+					}
+				}
+			}
+		}
+		sort.Strings(lines)
+		fmt.Println("# function inventory of the tree the rules were confirmed on (pkg, function); see normalise.go")
+		for _, l := range lines {
+			fmt.Println(l)
 		}
 		return
 	}
@@ -141,6 +166,14 @@ func run(p *Property, tier string, seed int, repo, verif string) int {
 			unresolved = append(unresolved, c.Variant+u)
 		}
 		notes = append(notes, c.Notes...)
+		if i == 0 && c.Norm != nil && (len(c.Norm.Overlay) > 0 || len(c.Norm.Notes) > 0) {
+			for _, nn := range c.Norm.Notes {
+				notes = append(notes, "normalised: "+nn)
+				fmt.Printf("NORMALISED: %s\n", nn)
+			}
+			saveNormalised(c.Norm, repo, verif)
+			fmt.Printf("NORMALISED: positions in the %d transformed file(s) refer to the text saved under %s\n", len(c.Norm.Overlay), filepath.Join(verif, "evidence", "normalised"))
+		}
 		if i == 0 {
 			for k, f := range c.floors {
 				floors[k] = f
@@ -217,6 +250,12 @@ func runAllProps(tier string, seed int, repo, verif string) int {
 	if err != nil {
 		fmt.Printf("BROKEN: %v\n", err)
 		return 2
+	}
+	if c.Norm != nil && (len(c.Norm.Overlay) > 0 || len(c.Norm.Notes) > 0) {
+		for _, nn := range c.Norm.Notes {
+			fmt.Printf("NORMALISED: %s\n", nn)
+		}
+		saveNormalised(c.Norm, repo, verif)
 	}
 	var ids []string
 	for id := range properties {
